@@ -2,6 +2,7 @@ package props
 
 import (
 	"fmt"
+	z "github.com/Oudwins/zog"
 	"reflect"
 
 	"verifharness/model"
@@ -82,6 +83,43 @@ type conformance struct {
 	res     *model.Result
 }
 
+// processPrelude is the life a process has had before the execution under test: an invalid input whose issues were
+// handed back through the Collect helper, and an execution that a panicking user callback (three levels down) tore
+// apart while the caller recovered, as any HTTP middleware does. Every case starts from that same state, so a case
+// remains a pure function of its own content.
+var preludeSchema = z.Struct(z.Schema{
+	"user": z.Struct(z.Schema{
+		"name": z.String().Required().Min(5),
+		"tags": z.Slice(z.String().TestFunc(func(v any, ctx z.Ctx) bool {
+			if s, _ := v.(*string); (s != nil && *s == "boom") || v == "boom" {
+				panic("user callback panics")
+			}
+			return true
+		})),
+	}),
+	"age": z.Int().GT(18).Catch(21),
+})
+
+type preludeDest struct {
+	User struct {
+		Name string
+		Tags []string
+	}
+	Age int
+}
+
+func processPrelude() {
+	var d preludeDest
+	if errs := preludeSchema.Parse(map[string]any{"user": map[string]any{"name": "ab", "tags": []any{"x"}}, "age": 3}, &d); errs != nil {
+		z.Issues.CollectMap(errs)
+	}
+	func() {
+		defer func() { _ = recover() }()
+		var d2 preludeDest
+		preludeSchema.Parse(map[string]any{"user": map[string]any{"name": "abcdef", "tags": []any{"a", "boom"}}, "age": 30}, &d2)
+	}()
+}
+
 // conform builds the case, runs the specification and runs zog reps times,
 // comparing issues (multiset), nil-ness, on success the whole destination
 // (pre-filled with sentinels in Parse when prefill is set) and the invocation
@@ -99,6 +137,7 @@ func conform(c model.Case, reps int, prefill, checkDest, checkRan bool) (*confor
 	if c.Exec.Mode == "parse" {
 		in = c.Input.Go()
 	}
+	processPrelude()
 	for r := 0; r < reps; r++ {
 		res := model.Run(schema, env, c.Exec, in, newDest(typ, c, prefill))
 		out.res = res
